@@ -307,7 +307,7 @@ def main():
                     specs.append(('stdin.%s' % (len(specs) + 1),
                                   'namespace%s' % parts.pop(0)))
 
-        if args.filter_by_route_attr:
+        if args.filter_by_route_attr is not None:
             route_filter, route_filter_errors = parse_route_attr_filter(
                 args.filter_by_route_attr, debug)
             if route_filter_errors:
